@@ -806,10 +806,8 @@ def _quarter_digits(grow: bool) -> Any:
 XML_TEXT_PROFILES: dict[str, Text] = {
     # the five characters `&amp;` — a standard parser reads `&` — and the same escaped once more
     "amp-reference": Text("amp-reference", "{}", "{}&amp;zone", "root&amp;arpa-{}-a&amp;amp;b", references=True),
-    # the other predefined entities
-    "predefined-entities": Text("predefined-entities", "{}", "{}&lt;z&gt;", "{}&quot;q&quot;&apos;&lt;&gt;", references=True),
-    # numeric character references, decimal and hexadecimal (u-umlaut, hyphen, copyright sign, an astral character)
-    "numeric-references": Text("numeric-references", "{}", "z&#252;rich-{}", "{}-&#x2d;-&#169;&#x1F511;", references=True),
+    # the other predefined entities; numeric character references, decimal and hexadecimal (u-umlaut, hyphen, copyright sign, an astral character)
+    "other-references": Text("other-references", "{}", "z&#252;rich-{}&lt;z&gt;", "{}&quot;q&quot;&apos;&lt;&gt;-&#x2d;-&#169;&#x1F511;", references=True),
     # an apostrophe and a TAB inside the attribute value (a standard parser normalises the tab to a blank)
     "apostrophe-tab": Text("apostrophe-tab", "{}", "{}'s", "it's\t{}", references=True),
     # a bare ampersand, a reference without its semicolon, an empty reference: not well-formed XML; the reader accepts it verbatim
